@@ -148,6 +148,7 @@ class VerusFile:
         self.trusted = []         # declared trusted items (external_body etc.) with reason
         self.rewrites_used = []
         self.canaries = []        # names of canary fns expected to fail
+        self.excluded_arms = []
         self._lines = 0
 
     # ------------------------------------------------------------------------------------------
@@ -202,7 +203,7 @@ class VerusFile:
         return text
 
     def fn(self, rel, anchor, contract=None, props=(), rewrites=(), rename=None, qual=None, text_override=None,
-           attrs=""):
+           attrs="", assumed=False, cases=None):
         """Extract a function, weave the contract between signature and body."""
         reg = self.repo.at(rel, anchor)
         text = text_override if text_override is not None else reg.text
@@ -212,8 +213,45 @@ class VerusFile:
         if rename:
             text = re.sub(r"\bfn\s+%s\b" % re.escape(reg.item["name"]), "fn " + rename, text, count=1)
         fq = (qual + "::" if qual else "") + name
+        if assumed:
+            # callee contract proved in another unit: signature + identical contract, body dropped
+            head, ret, where, body = split_fn(text)
+            text = text[:len(text) - len(body)] + "{ unimplemented!() }"
+            if contract is not None:
+                contract.canary = False
+            self.fn_text(fq, text, contract, (), file=rel, lines=reg.lines(), anchor=anchor,
+                         attrs="#[verifier::external_body]", origin="assumed")
+            del self.functions[fq]
+            return reg
+        if cases:
+            self.fn_cases(fq, text, contract, props, cases, file=rel, lines=reg.lines(), anchor=anchor, attrs=attrs)
+            return reg
         self.fn_text(fq, text, contract, props, file=rel, lines=reg.lines(), anchor=anchor, attrs=attrs)
         return reg
+
+    def fn_cases(self, fq, text, contract, props, cases, file=None, lines=None, anchor=None, attrs=""):
+        """Case split by precondition (keeps each SMT query small): the same function text is verified
+        once per case `(name, condition, [clauses])` under the extra precondition `condition`, with the
+        shared clauses of `contract` plus the case's own; a generated lemma proves the cases exhaustive
+        under the shared precondition.  Sound: the conjunction of the per-case results is the contract."""
+        contract = contract or Contract()
+        base = fq.split("::")[-1]
+        for cname, cond, clauses in cases:
+            c = Contract(requires=[x for x in contract.requires] + [Clause("case", (), cond)],
+                         ensures=list(contract.ensures) + list(clauses), ret=contract.ret, decreases=contract.decreases,
+                         canary=contract.canary)
+            t2 = re.sub(r"\bfn\s+%s\b" % re.escape(base), "fn %s__%s" % (base, cname), text, count=1)
+            self.fn_text("%s__%s" % (fq, cname), t2, c, props, file=file, lines=lines, anchor=anchor, attrs=attrs)
+        head, ret, where, body = split_fn(text)
+        m = re.search(r"\bfn\s+(\w+)\s*(<.*?>)?\s*\(", head, flags=re.S)
+        i = head.index("(", m.end() - 1)
+        params = re.sub(r"\bmut\s+(?=\w+\s*:)", "", head[i + 1:head.rindex(")")])
+        pre = "".join("    requires %s,\n" % _oneline(c.text) for c in contract.requires[:1])
+        if len(contract.requires) > 1:
+            pre = "    requires " + ", ".join("(%s)" % _oneline(c.text) for c in contract.requires) + ",\n"
+        lemma = "proof fn %s__cases_exhaustive%s(%s)\n    %s\n%s    ensures %s,\n{}\n" % (
+            base, m.group(2) or "", params, where, pre, " || ".join("(%s)" % cond for _, cond, _ in cases))
+        self.spec_obligation("%s__cases_exhaustive" % fq, lemma, props)
 
     def fn_text(self, fq, text, contract=None, props=(), file=None, lines=None, anchor=None, attrs="", origin="repo"):
         """Weave a contract into function text (already extracted / generated)."""
@@ -256,6 +294,54 @@ class VerusFile:
                                   start=start, end=self._lines, origin=origin)
         if contract.requires and contract.canary:
             self._canary(fq, head, where, contract)
+
+    def step(self, rel, anchor, fq, signature, contract=None, props=(), rewrites=(), scrutinee=None,
+             exclude=None, pre_match="", post_match="", arm_rewrites=None, attrs=""):
+        """Per-node step extraction (DESIGN 3.2): cut the arms of the `match` at `anchor` verbatim and
+        generate  `<signature> { <pre_match> let step_result = match <scrutinee> { ARMS }; <post_match> step_result }`.
+
+        signature : text `fn name<..>(params) -> Ret` (+ optional where clause), written by the unit
+        exclude   : {pattern-prefix: replacement body}  -- rule R9, the arm's body is replaced (the arm is
+                    then NOT claimed); every exclusion is recorded in self.excluded_arms
+        arm_rewrites : {pattern-prefix: [rewrite, ...]} applied to single arms
+        Returns the list of arm patterns (so that units can check that every variant is covered).
+        """
+        reg = self.repo.at(rel, anchor)
+        arms = split_arms(reg.src, reg.start, reg.end)
+        if not arms:
+            raise Undecided("no match arms at %s %s" % (rel, anchor))
+        out = []
+        pats = []
+        used = set()
+        for a in arms:
+            pat_n = re.sub(r"\s+", " ", a["pat"])
+            pats.append(pat_n)
+            body = a["body"]
+            key = None
+            for k in (exclude or {}):
+                if pat_n.startswith(k):
+                    key = k
+            if key is not None:
+                used.add(key)
+                body = (exclude[key])
+                self.excluded_arms.append("%s: arm `%s` excluded (R9) at %s" % (fq, pat_n[:60], anchor))
+            else:
+                for k, rws in (arm_rewrites or {}).items():
+                    if pat_n.startswith(k):
+                        used.add(k)
+                        body = self._apply(body, rws, "%s arm %s" % (anchor, k))
+            guard = (" if " + a["guard"]) if a["guard"] else ""
+            out.append("        %s%s => %s," % (a["pat"], guard, body))
+        missing = (set(exclude or {}) | set(arm_rewrites or {})) - used
+        if missing:
+            raise Undecided("step %s: arms %s not found at %s (anchor lost)" % (fq, sorted(missing), anchor))
+        scr = scrutinee or getattr(reg, "scrutinee", None)
+        text = "%s {\n%s\n    let step_result = match %s {\n%s\n    };\n%s\n    step_result\n}\n" % (
+            signature.strip(), pre_match, scr, "\n".join(out), post_match)
+        text = drop_vis(strip_docs(text))
+        text = self._apply(text, rewrites, anchor)
+        self.fn_text(fq, text, contract, props, file=rel, lines=reg.lines(), anchor=anchor, attrs=attrs)
+        return pats
 
     def spec_obligation(self, fq, text, props):
         """A proof fn / lemma written in /verif (origin verif) that counts as an obligation."""
@@ -493,3 +579,22 @@ R5_BOOL_OPASSIGN = sub("R5", r"(\b[\w.]+)\s*([|&])=\s*([^;]+);", lambda m: "%s =
 
 def arms_of(region):
     return split_arms(region.src, region.start, region.end)
+
+
+def replace_arm(scrutinee, pat_prefix, new_body, rule_name="R9", nth=0):
+    """Rewrite on whole-function text: the body of the arm whose pattern starts with `pat_prefix`
+    in `match <scrutinee> {..}` is replaced by `new_body`."""
+    from .extract import Region
+
+    @rule(rule_name)
+    def rw(text):
+        reg = Region("<text>", text, 0, len(text))
+        try:
+            m = reg._find_match(scrutinee, nth)
+        except AnchorLost:
+            return None
+        for a in split_arms(text, m.start, m.end):
+            if re.sub(r"\s+", " ", a["pat"]).startswith(pat_prefix):
+                return text[:a["body_start"]] + new_body + text[a["body_end"]:]
+        return None
+    return rw
